@@ -16,6 +16,9 @@ const preludeStd = `(declare-fun lower (B) B)
 (declare-fun upper (B) B)
 (declare-fun trim (B) B)
 (declare-fun repeat (B Int) B)
+(declare-fun splitS (Int) B)
+(declare-fun splitSep (Int) B)
+(declare-fun splitN (Int) Int)
 (declare-fun utdiv (Int Int) Int)
 (declare-fun utmod (Int Int) Int)
 (declare-fun imul (Int Int) Int)
@@ -120,6 +123,17 @@ func (f *frame) stdlib(i *ssa.Call, full string, args []T, st *State, pc string)
 		g.s.assumeUnder(pc, eq("(blen "+r.S+")", "(* (blen "+v(0)+") "+args[1].S+")"))
 		g.s.assumeUnder(pc, imp(eq(v(0), "(chr 32)"), eq(r.S, "(spaces "+args[1].S+")")))
 		return []T{{"(mk false " + r.S + ")", "NB"}}, pc, true
+	case "strings.Split":
+		// T-STD: a fresh []string that is a function of the text and the separator only; splitS /
+		// splitSep name the two arguments a split list was produced from (its elements are not
+		// modelled beyond their number being at least 1 for a non-empty separator)
+		p := g.fresh(st)
+		ln := g.s.decl("split.len", "Int")
+		g.s.assumeUnder(pc, "(>= "+ln.S+" 0)")
+		h := g.elemHeapOf(types.Typ[types.String])
+		g.writeHeap(st, h, p, g.s.decl("split.arr", "(Array Int NB)").S)
+		g.s.assumeUnder(pc, and(eq("(splitS "+p+")", v(0)), eq("(splitSep "+p+")", v(1)), eq("(splitN "+p+")", ln.S)))
+		return []T{g.s.def(i.Name(), T{"(slc " + p + " 0 " + ln.S + " false)", "Slc"})}, pc, true
 	case "strings.TrimSpace":
 		// T-STD: removes lead(s) bytes of leading and trail(s) bytes of trailing white space
 		return nb("(trim " + v(0) + ")"), pc, true
